@@ -14,7 +14,9 @@ Al == Img.aliases
 
 Ty(c) == [c |-> c, a |-> <<>>]
 Ty1(c, x) == [c |-> c, a |-> <<x>>]
-Lit == Ty("(literal)")
+\* an anonymous literal: the generator names its struct, so the expected term carries the literal's own properties and the
+\* struct found at that place is compared member by member (names, types, Option, feature gates)
+Lit(t) == [c |-> "(literal)", a |-> <<>>, props |-> t.value.properties]
 
 NonNull(items) == SelectSeq(items, LAMBDA t : ~IsNullT(t))
 HasNullItem(t) == t.kind \in {"or", "tuple"} /\ \E i \in DOMAIN t.items : IsNullT(t.items[i])
@@ -44,23 +46,28 @@ RustTy(t) ==
       [] t.kind = "tuple" ->
             LET nn == NonNull(t.items) IN
             IF Len(nn) = 1 THEN RustTy(nn[1]) ELSE [c |-> "(tuple)", a |-> [i \in DOMAIN nn |-> RustTy(nn[i])]]
-      [] t.kind = "literal" -> IF t.value.properties = <<>> THEN Ty("LSPObject") ELSE Lit
+      [] t.kind = "literal" -> IF t.value.properties = <<>> THEN Ty("LSPObject") ELSE Lit(t)
       [] t.kind = "stringLiteral" -> Ty("String")
       [] OTHER -> Ty("(unsupported)")
 
 ExpFieldTy(p) == IF Optional(p) \/ HasNullItem(p.type) THEN Ty1("Option", RustTy(p.type)) ELSE RustTy(p.type)
 
-\* term equality; an anonymous literal matches any named struct of the crate
-RECURSIVE TyEq(_, _)
-TyEq(x, e) == IF e.c = "(literal)" THEN x.a = <<>> /\ x.c \in DOMAIN St
+\* term equality; an anonymous literal matches a struct of the crate that is the image of exactly that literal
+Fail(c, pos) == [c |-> c, pos |-> pos]
+FieldNamed(s, n) == St[s].fields[CHOOSE i \in DOMAIN St[s].fields : St[s].fields[i].serde_name = n]
+FieldNames(s) == {St[s].fields[i].serde_name : i \in DOMAIN St[s].fields}
+RECURSIVE TyEq(_, _), LitOK(_, _)
+LitOK(sn, props) ==
+    /\ FieldNames(sn) = {props[i].name : i \in DOMAIN props}
+    /\ \A i \in DOMAIN props :
+          LET f == FieldNamed(sn, props[i].name) IN
+          /\ TyEq(f.ty, IF Optional(props[i]) \/ HasNullItem(props[i].type) THEN Ty1("Option", RustTy(props[i].type)) ELSE RustTy(props[i].type))
+          /\ f.gated = Proposed(props[i])
+TyEq(x, e) == IF e.c = "(literal)" THEN x.a = <<>> /\ x.c \in DOMAIN St /\ LitOK(x.c, e.props)
               ELSE x.c = e.c /\ Len(x.a) = Len(e.a) /\ \A i \in DOMAIN x.a : TyEq(x.a[i], e.a[i])
 
 RECURSIVE Names(_)
 Names(x) == {x.c} \cup UNION {Names(x.a[i]) : i \in DOMAIN x.a}
-
-Fail(c, pos) == [c |-> c, pos |-> pos]
-FieldNamed(s, n) == St[s].fields[CHOOSE i \in DOMAIN St[s].fields : St[s].fields[i].serde_name = n]
-FieldNames(s) == {St[s].fields[i].serde_name : i \in DOMAIN St[s].fields}
 
 StructFails(s) ==
     IF s \notin DOMAIN St THEN {Fail("R_struct_missing", s)}
